@@ -141,7 +141,7 @@ package ocidir
 //@   requires copies-through-digest-tee: $teeSrc(src) == old(caller.rdr) && $teeDst(src) == $hashOf($ret(Digester, 0))
 //@ func (*OCIDir).BlobPut(ctx, r, d, rdr) (dOut, err)
 //@   prop C05
-//@   ensures result-truthful: err == nil ==> dOut.Digest == $digestAt(digester, $hv) && dOut.Size == i
+//@   ensures result-truthful: err == nil ==> dOut.Digest == $digestAt($ret(Digester, 0), $hv) && dOut.Size == $ret(Copy, 0)
 //@   ensures declared-digest-honoured: err == nil && $valid(old(d).Digest) ==> dOut.Digest == old(d).Digest
 //@   ensures declared-size-honoured: err == nil && old(d).Size > 0 ==> dOut.Size == old(d).Size
 
